@@ -12,7 +12,7 @@ Shape of a generated program (what keeps it well founded and inside the document
           (the `one` sentinel may only meet products; covered by the hand-written corpus and the shipped algorithms);
   marker  none | hermitian | antihermitian at a random position;  clauses: 1-3 with condition none | diagonal | offdiagonal, optionally a final `lower` clause;
   flag expressions `zero if two_block_optimized else e`, `e if commuting_blocks[index[0]] else e` at the top of a clause;
-  expressions: random trees of depth <= 3 over  series | series.adj | product | product.adj | zero | -e | e + e | e - e | e / k | f(e) | g(e) | f("series").
+  expressions: random trees of depth <= 3 over  series | series.adj | product | product.adj | zero | -e | e + e | e - e | e / k | k * e | e * k | f(e) | g(e) | f("series").
 """
 from __future__ import annotations
 
@@ -30,7 +30,7 @@ def _expr(rnd, leaves, depth, allow_calls=True):
         if leaf == "zero":
             return "zero"
         return f'"{leaf}"' + (".adj" if rnd.random() < 0.4 else "")
-    kind = rnd.choice(["neg", "add", "sub", "div", "call", "callseries", "add", "sub"])
+    kind = rnd.choice(["neg", "add", "sub", "div", "call", "callseries", "add", "sub", "scale"])
     if kind in ("call", "callseries") and not allow_calls:
         kind = "add"
     if kind == "neg":
@@ -41,6 +41,10 @@ def _expr(rnd, leaves, depth, allow_calls=True):
     if kind == "div":
         k = rnd.choice([2, 3, -2, 4, -5])
         return f"({_expr(rnd, leaves, depth - 1, allow_calls)}) / {k}"
+    if kind == "scale":
+        k = rnd.choice([2, 3, -2, -1])
+        inner = _expr(rnd, leaves, depth - 1, allow_calls)
+        return f"{k} * ({inner})" if rnd.random() < 0.5 else f"({inner}) * {k}"
     if kind == "call":
         return f"{rnd.choice('fg')}({_expr(rnd, leaves, depth - 1, allow_calls)})"
     names = [l for l in leaves if l != "zero" and "@" not in l]
